@@ -122,6 +122,80 @@ func genC39(g *gen) {
 	}
 	g.line("Definition gen_replies_to_requester_use_its_id : bool := %s.", coqBool(repliesUnderRequesterID && nReplies >= 4))
 
+	// ---- the id space is never restarted: nextControlID is only incremented, and
+	// the two maps are created once, in the constructor
+	counterOnlyIncremented, mapsCreatedOnce := true, true
+	nInc, nMakeP, nMakeF := 0, 0, 0
+	for _, af := range parseDir("internal/agent") {
+		ast.Inspect(af, func(n ast.Node) bool {
+			switch x := n.(type) {
+			case *ast.AssignStmt:
+				for _, l := range x.Lhs {
+					switch src(l) {
+					case "a.nextControlID":
+						counterOnlyIncremented = false
+					case "a.pendingControl", "a.forwardedControl":
+						mapsCreatedOnce = false
+					}
+				}
+			case *ast.IncDecStmt:
+				if src(x.X) == "a.nextControlID" {
+					if x.Tok.String() == "++" {
+						nInc++
+					} else {
+						counterOnlyIncremented = false
+					}
+				}
+			case *ast.CallExpr:
+				t := strings.ReplaceAll(src(x), " ", "")
+				if t == "make(map[uint64]*pendingControlRequest)" {
+					nMakeP++
+				}
+				if t == "make(map[uint64]*forwardedControlRequest)" {
+					nMakeF++
+				}
+			}
+			return true
+		})
+	}
+	g.line("Definition gen_control_counter_only_incremented : bool := %s.", coqBool(counterOnlyIncremented && nInc == 2))
+	g.line("Definition gen_control_maps_created_once : bool := %s.", coqBool(mapsCreatedOnce && nMakeP == 1 && nMakeF == 1))
+
+	// ---- every reply the agent itself sends comes from handleControlRequest (and
+	// carries req.RequestID, checked above); sendControlResponse writes to the
+	// requester's own link only - no route lookup, no second destination
+	totalCalls := 0
+	for _, af := range parseDir("internal/agent") {
+		ast.Inspect(af, func(n ast.Node) bool {
+			if call, ok := n.(*ast.CallExpr); ok && strings.HasSuffix(src(call.Fun), ".sendControlResponse") {
+				totalCalls++
+			}
+			return true
+		})
+	}
+	g.line("Definition gen_all_own_replies_come_from_the_request_handler : bool := %s.", coqBool(totalCalls == nReplies && nReplies >= 4))
+	directOnly := false
+	if fd := findFunc(f, "Agent", "sendControlResponse"); fd != nil {
+		sends, other := 0, false
+		ast.Inspect(fd, func(n ast.Node) bool {
+			if call, ok := n.(*ast.CallExpr); ok {
+				fn := src(call.Fun)
+				if strings.HasSuffix(fn, ".SendToPeer") {
+					sends++
+					if len(call.Args) != 2 || src(call.Args[0]) != "peerID" {
+						other = true
+					}
+				}
+				if strings.Contains(fn, "routeMgr") || strings.Contains(fn, "Broadcast") || strings.Contains(fn, "flooder") {
+					other = true
+				}
+			}
+			return true
+		})
+		directOnly = sends == 1 && !other
+	}
+	g.line("Definition gen_own_reply_sent_to_the_requester_link_only : bool := %s.", coqBool(directOnly))
+
 	// the encoders of the control frames return buffers nobody else can write to:
 	// a fresh bufferWriter per call, no pool, no package-level buffer
 	pf := parseFile("internal/protocol/frame.go")
